@@ -207,7 +207,13 @@ func solveAll(items []*solveItem, timeoutS int, needTwo bool, workers int) {
 				if o.Vacuity && to > 4 {
 					to = 4 // a contradictory precondition is refuted quickly; "unknown" is the expected answer
 				}
-				r := solve(script, it.file, to, needTwo && !o.Vacuity)
+				var r solveResult
+				if o.SplitFirst && !o.Vacuity && len(splitGoal(o.Goal)) > 1 {
+					r = solveResult{status: "unknown", output: "[splitfirst] whole goal not attempted"}
+					os.WriteFile(it.file, []byte(script), 0o644)
+				} else {
+					r = solve(script, it.file, to, needTwo && !o.Vacuity)
+				}
 				o.Solver, o.TimeS, o.Output, o.SMTFile = r.solver, r.timeS, r.output, it.file
 				if r.confirmedBy != "" {
 					o.Solver += "+" + r.confirmedBy
@@ -230,9 +236,11 @@ func solveAll(items []*solveItem, timeoutS int, needTwo bool, workers int) {
 					o.Status = "unknown"
 					// retry 1: without the typing axioms (fewer useless instantiations; dropping
 					// assumptions is sound)
-					if r2 := solve(it.w.scriptOpt(o, false, true), strings.TrimSuffix(it.file, ".smt2")+".noty.smt2", to, false); r2.status == "unsat" {
-						o.Status, o.Solver, o.TimeS = "proved", "noty:"+r2.solver, r.timeS+r2.timeS
-						continue
+					if !o.SplitFirst {
+						if r2 := solve(it.w.scriptOpt(o, false, true), strings.TrimSuffix(it.file, ".smt2")+".noty.smt2", to, false); r2.status == "unsat" {
+							o.Status, o.Solver, o.TimeS = "proved", "noty:"+r2.solver, r.timeS+r2.timeS
+							continue
+						}
 					}
 					// retry 2: split the goal into its conjuncts and prove each on its own
 					if parts := splitGoal(o.Goal); len(parts) > 1 {
